@@ -83,3 +83,6 @@ OBLIGATIONS = FT.fault_obligations('c05', 'C05', which=['up-path', 'up-seek', 'u
 
 from harness.corace import OB_DEPS, task_dependencies  # noqa: E402
 OBLIGATIONS += [dict(OB_DEPS, id='C05.2')]
+
+from harness.nsrun import ns_fault_obligations, nsfaulted  # noqa: E402
+OBLIGATIONS += ns_fault_obligations('c05', 'C05', ['up-seek', 'up-stream', 'up-path', 'copy'])
